@@ -207,7 +207,8 @@ def sigmas(tier):
 
 
 def ladder(tier):
-    base = [0.1, 0.5, 1, 2, 3, 4, 6, 8, 12, 16, 20]
+    # 1e-3: next to the open lower end of (0, 20 s]; 20: the closed upper end exactly
+    base = [1e-3, 0.1, 0.5, 1, 2, 3, 4, 6, 8, 12, 16, 20]
     if tier == 'quick':
         return base
     extra = [0.2, 0.75, 1.5, 2.5, 3.5, 5, 7, 10, 14, 18]
@@ -215,7 +216,78 @@ def ladder(tier):
 
 
 MS = [2, 4, 8, 16, 32, 64, 128, 256]
-OFFSETS = [0.0, 0.3, -1.0, 5.0]
+OFFSETS = [0.0, 0.3, -1.0, 5.0, -250.0, 1000.0]      # mu0 in units of the scale: zero, small, negative, large of both signs
+
+
+def scales(tier):
+    """common factor applied to ALL of mu0, mu, s0, s1 (the error integral is scale-free, thresholds scale with it)"""
+    return [1e-9, 1e-6, 1e6] if tier == 'quick' else [1e-12, 1e-9, 1e-6, 1e6]
+
+
+def formula_cases(tier):
+    """(tier, kind, s0, s1, M, scale): the full product at scale 1, and every other scale on a slice (quick: six sigma
+    pairs x M in {2, 4, 256}; thorough: all sigma pairs x M in {2, 4, 16, 256})"""
+    sg_ = sigmas(tier)
+    pairs = list(itertools.product(sg_, sg_))
+    pairs.sort(key=lambda p: (p[0] != p[1], sg_.index(p[0]) + sg_.index(p[1])))
+    out = [(tier, 'ook', a, b, 2, 1.0) for a, b in pairs] + [(tier, 'ppm', a, b, M, 1.0) for M in MS for a, b in pairs]
+    if tier == 'quick':
+        sp, Ms = [(0.1, 0.1), (1.0, 1.0), (0.1, 0.05), (0.05, 0.1), (0.1, 0.3), (0.3, 1.0)], [2, 4, 256]
+    else:
+        sp, Ms = pairs, [2, 4, 16, 256]
+    for c in scales(tier):
+        out += [(tier, 'ook', a, b, 2, c) for a, b in sp] + [(tier, 'ppm', a, b, M, c) for M in Ms for a, b in sp]
+    return out
+
+
+def as_form(v, form):
+    """the same numeric value in another type a caller may legitimately hold it in.  Values the type cannot hold
+    exactly (non-integers for the integer forms, inf) stay floats; None / str / bool pass through."""
+    if v is None or isinstance(v, (str, bool, np.bool_)):
+        return v
+    fv = float(v)
+    integral = math.isfinite(fv) and fv == int(fv)
+    if form == 'float':
+        return fv
+    if form == 'int':
+        return int(fv) if integral else fv
+    if form == 'np.float64':
+        return np.float64(fv)
+    if form == 'np.int64':
+        return np.int64(fv) if integral else np.float64(fv)
+    if form == 'np.int32':
+        return np.int32(fv) if (integral and abs(fv) < 2 ** 31) else np.float64(fv)
+    if form == '0-d':
+        return np.array(fv)
+    if form == '0-d int':
+        return np.array(int(fv)) if integral else np.array(fv)
+    if form == 'np.float32':
+        return np.float32(fv)
+    raise KeyError(form)
+
+
+def as_mform(M, form):
+    if M is None or form == 'int':
+        return M
+    return getattr(np, form[3:])(M)
+
+
+def as_vec(vals, form):
+    """a vector of values in the container that goes with the numeric form"""
+    if form == 'float':
+        return np.array([float(v) for v in vals])
+    if form == 'int':
+        return [as_form(v, 'int') for v in vals]                 # Python list of Python numbers
+    if form == 'np.float64':
+        return tuple(np.float64(v) for v in vals)                # tuple of numpy scalars
+    if form in ('np.int64', 'np.int32'):
+        a = np.array([float(v) for v in vals])
+        return a.astype(form[3:]) if np.all(a == np.round(a)) else a
+    if form == '0-d':
+        return np.array([float(v) for v in vals])
+    if form == 'np.float32':
+        return np.array(vals, dtype=np.float32)
+    raise KeyError(form)
 
 
 def informative(vals):
@@ -226,8 +298,11 @@ def informative(vals):
 # ---------------------------------------------------------------------------------------------------------
 # part 1: ook.theory_BER / ppm.theory_BER over the full product
 def formulas_case(case):
-    """case = (tier, kind, s0, s1, M); kind in {'ook','ppm'}.  Runs the whole mu ladder."""
-    tier, kind, s0, s1, M = case
+    """case = (tier, kind, s0, s1, M[, scale]); kind in {'ook','ppm'}.  Runs the whole mu ladder; `scale` multiplies
+    mu, s0 and s1 alike."""
+    tier, kind, s0, s1, M = case[:5]
+    c = case[5] if len(case) > 5 else 1.0
+    s0, s1 = s0 * c, s1 * c
     from opticomlib import ook, ppm
     lad = ladder(tier)
     s = max(s0, s1)
@@ -236,6 +311,36 @@ def formulas_case(case):
 
     def V(key, msg):
         viol.append((key, f'{kind} s0={s0} s1={s1} M={M}: {msg}'))
+
+    def vector_forms(name, f, scal, at=0.0):
+        """element-wise clause on more vector shapes: f(mu, s0, s1) is the library function (M / decision bound), `scal`
+        the scalar-call values over the ladder.  All comparisons are library vs library (rtol 1e-12: same flops)."""
+        n = 0
+        i1 = 5
+        one = np.asarray(f(np.array([mus[i1]]), s0, s1), dtype=float); n += 1
+        if one.shape != (1,) or not close(one, [scal[i1]], 1e-12, at):
+            V(f'{name}:vectorisation', f'length-1 vector call mu=[{mus[i1]}] gives {one!r}, scalar call {scal[i1]!r}')
+        two = np.asarray(f(np.array(mus[:6]).reshape(2, 3), s0, s1), dtype=float); n += 1
+        if two.shape != (2, 3) or not close(two.ravel(), scal[:6], 1e-12, at):
+            V(f'{name}:vectorisation', f'(2,3)-shaped mu gives {two!r}, scalar calls {scal[:6]!r}')
+        # entries that differ by many orders of magnitude: element i is the triple (mu, s0, s1) * K[i]
+        K = np.array([1e-9, 1e-3, 1.0, 1e6])
+        mw, aw, bw = mus[i1] * K, s0 * K, s1 * K
+        for a in (mw, aw, bw):
+            a.flags.writeable = False
+        snap = (mw.tobytes(), aw.tobytes(), bw.tobytes())
+        wide = np.asarray(f(mw, aw, bw), dtype=float); n += 1
+        scw = [float(f(float(mw[i]), float(aw[i]), float(bw[i]))) for i in range(len(K))]; n += len(K)
+        if wide.shape != (len(K),) or not close(wide, scw, 1e-12, at):
+            V(f'{name}:vectorisation', f'vector call on (mu,s0,s1)*{K.tolist()} gives {wide!r}, scalar calls {scw!r}')
+        if (mw.tobytes(), aw.tobytes(), bw.tobytes()) != snap:
+            V(f'{name}:operand-modified', 'a write-protected argument array changed')
+        if s0 == s1:
+            sv = np.full(len(mus), s0)          # ONE array object passed for both sigmas
+            same = np.asarray(f(np.array(mus), sv, sv), dtype=float); n += 1
+            if same.shape != (len(mus),) or not close(same, scal, 1e-12, at):
+                V(f'{name}:vectorisation', f'one array object passed as s0 and s1 gives {same!r}, scalar calls {scal!r}')
+        return n, (fl(one), fl(two), fl(wide))
 
     if kind == 'ook':
         vals = []
@@ -270,7 +375,8 @@ def formulas_case(case):
         sc3 = [float(ook.theory_BER(float(m3[i]), float(a3[i]), float(b3[i]))) for i in range(3)]; nlib += 3
         if vec3.shape != (3,) or not close(vec3, sc3, 1e-12):
             V('ook.theory_BER:vectorisation', f'vector call (mu,s0,s1 arrays) gives {vec3!r}, scalar calls {sc3!r}')
-        obs = (fl([t[0] for t in vals]), fl(vec), fl(vec3))
+        k_, o_ = vector_forms('ook.theory_BER', ook.theory_BER, [t[0] for t in vals]); nlib += k_
+        obs = (fl([t[0] for t in vals]), fl(vec), fl(vec3), o_)
         return res(viol=viol, obs=obs, nontrivial=informative([t[0] for t in vals]),
                    stats={'formula_points': len(mus), 'lib_calls': nlib})
 
@@ -322,7 +428,13 @@ def formulas_case(case):
         sc3 = [float(ppm.theory_BER(float(m3[i]), float(a3[i]), float(b3[i]), M, dec)) for i in range(3)]; nlib += 3
         if vec3.shape != (3,) or not close(vec3, sc3, 1e-12, 1e-300):
             V('ppm.theory_BER:vectorisation', f'{dec}: vector call (mu,s0,s1 arrays) gives {vec3!r}, scalar calls {sc3!r}')
-        outs.append((fl(vec), fl(vec3)))
+        k_, o_ = vector_forms('ppm.theory_BER', lambda m_, a_, b_: ppm.theory_BER(m_, a_, b_, M, dec), sc, 1e-300); nlib += k_
+        # the order M held in numpy integer types
+        for mt in ('int64', 'int32', 'int16', 'uint8' if M < 256 else 'uint16'):
+            vm = np.asarray(ppm.theory_BER(np.array(mus), s0, s1, getattr(np, mt)(M), dec), dtype=float); nlib += 1
+            if vm.shape != (len(mus),) or not close(vm, sc, 1e-12, 1e-300):
+                V(f'ppm.theory_BER:M-as-numpy-integer', f'{dec}: M=np.{mt}({M}) gives {vm!r}, M={M} (int) gives {sc!r}')
+        outs.append((fl(vec), fl(vec3), o_))
     obs = (fl(hard), fl(soft), tuple(outs))
     return res(viol=viol, obs=obs, nontrivial=informative(hard + soft),
                stats={'formula_points': 2 * len(mus), 'lib_calls': nlib, 'soft_general_M_off_documented_integral_by_more_than_1e-8': ndev})
@@ -364,8 +476,10 @@ def log_residual(t, d, S0, S1, M):
 
 
 def estimators_case(case):
-    """case = (tier, kind, s0, s1, M).  mu ladder x offsets mu0."""
-    tier, kind, s0, s1, M = case
+    """case = (tier, kind, s0, s1, M[, scale]).  mu ladder x offsets mu0; `scale` multiplies mu0, mu1, s0 and s1 alike."""
+    tier, kind, s0, s1, M = case[:5]
+    c = case[5] if len(case) > 5 else 1.0
+    s0, s1 = s0 * c, s1 * c
     from opticomlib import ook, ppm, utils as U
     lad = ladder(tier)
     s = max(s0, s1)
@@ -389,7 +503,8 @@ def estimators_case(case):
             scale = bit(M)
         ah = 0.0 if kind == 'ook' else at_hard(M)
         base = {}
-        for mu0 in OFFSETS:
+        for off in OFFSETS:
+            mu0 = off * c
             mu1 = mu0 + d
             dd = mu1 - mu0                      # the difference the library can see (rounded)
             rnd = 8 * EPS * (abs(mu0) + abs(mu1))
@@ -447,6 +562,9 @@ def estimators_case(case):
                     if not ok:
                         V(f'{kind}.BER_analizer:estimator:{dec}:not-shift-invariant', f'mu0={mu0}: {v!r}, at mu0=0: {base[dec]!r}')
             obs.append((th,) + tuple(bers.values()))
+            # one eye object served all the calls above: its parameters are still the ones it was built with
+            if (ey.mu0, ey.mu1, ey.s0, ey.s1) != (mu0, mu1, s0, s1):
+                V(f'{kind}:estimators:eye-object-modified', f'mu0={mu0} mu1={mu1}: the eye object now holds {(ey.mu0, ey.mu1, ey.s0, ey.s1)!r}')
 
             # ---- utils.optimum_threshold (variances S0, S1)
             roots = opt_thr_roots(dd, S0, S1, M)
@@ -494,21 +612,26 @@ def tol_x(d, mu0, mu1):
 # ---------------------------------------------------------------------------------------------------------
 # part 3: receiver model lattice
 P_LADDER = [-50.0, -40.0, -30.0, -25.0, -20.0, -10.0, 0.0]
-MODS = [('ook', None, None), ('ppm', 4, 'hard'), ('ppm', 4, 'soft'), ('ppm', 16, 'hard'), ('ppm', 16, 'soft')]
+MODS = [('ook', None, None), ('ppm', 4, 'hard'), ('ppm', 4, 'soft'), ('ppm', 16, 'hard'), ('ppm', 16, 'soft'),
+        ('ppm', 2, 'hard'), ('ppm', 2, 'soft'), ('ppm', 256, 'hard'), ('ppm', 256, 'soft')]      # both ends of M in {2,...,256}
+THRESHOLDS = [0.5, 0.1, 0.9, 1e-6, 1 - 1e-6]     # documented range (0, 1) without the edges: middle, both sides, next to both edges
+NUMFORMS = ['float', 'int', 'np.float64', 'np.int64', '0-d']
 AXES = {                                 # first entry = baseline A (unamplified); simplest first
     'ER': [math.inf, 3.0, 10.0, 20.0],
     'amplify': [False, True],
     'form': ['default', 'explicit'],     # unamplified call form: G/NF/BW_opt left at their None defaults, or passed explicitly
-    'G': [0.0, 20.0, 40.0],
+    'G': [0.0, 20.0, 40.0, 1.0],         # both documented limits; 1 dB: a small gain that is NOT equivalent to "no amplifier"
     'NF': [3.0, 5.0, 10.0],
-    'BWx': [4.0, 10.0],                  # BW_opt / BW_el
+    'BWx': [4.0, 10.0, 1 + 2.0 ** -10],  # BW_opt / BW_el (> 1; the last one next to the limit)
     'r': [1.0, 0.5, 0.05],
     'R_L': [50.0, 10.0, 1e4],
     'T': [300.0, 0.0, 400.0],
     'NF_el': [0.0, 3.0, 10.0],
-    'mod': [0, 1, 2, 3, 4],
+    'mod': list(range(len(MODS))),
     'BW_el': [5e9, 10e9],
     'wavelength': [1550e-9, 1310e-9],
+    'num': NUMFORMS,                     # type every numeric argument is passed in (Python float / int, numpy scalars, 0-d array)
+    'Mt': ['int', 'np.int64', 'np.int16', 'np.uint16'],   # type the PPM order is passed in
 }
 AXN = list(AXES)
 BASE_A = {k: v[0] for k, v in AXES.items()}
@@ -534,6 +657,8 @@ def canon_point(p):
         p['form'] = 'explicit'
     elif p['form'] == 'default':
         p['G'], p['NF'], p['BWx'] = BASE_A['G'], BASE_A['NF'], BASE_A['BWx']
+    if MODS[p['mod']][1] is None:
+        p['Mt'] = BASE_A['Mt']
     return tuple(p[a] for a in AXN)
 
 
@@ -569,6 +694,82 @@ def _ber_refs(kind, M, dec, mu, S, npts=5000):
     return v, v, v
 
 
+def _ber_at(kind, M, dec, mu, S, t):
+    """BER of the model for the FIXED threshold mu_OFF + t (mu_ON - mu_OFF)"""
+    d = float(mu[1] - mu[0])
+    s0, s1 = math.sqrt(S[0]), math.sqrt(S[1])
+    if kind == 'ook':
+        return float(ook_obj(t * d, d, s0, s1))
+    return float(hard_obj(t * d, d, s0, s1, M)) * bit(M)
+
+
+def _chain(V, kind, M, dec, P, mu, S, ref):
+    """Results of the model helpers (numpy scalars) fed on to the slot-level formulas, inside their quantifier
+    (0 < mu1-mu0 <= 20 max(s0, s1), s0 > 0): ook/ppm.theory_BER, optimum_threshold and the estimators on an eye object
+    built from them must agree with the error integral on the model levels.  Returns (#library calls, observation)."""
+    from opticomlib import ook, ppm, utils as U
+    d = float(ref['mu'][1] - ref['mu'][0])
+    s0, s1 = math.sqrt(ref['S'][0]), math.sqrt(ref['S'][1])
+    if not (s0 > 0 and 0 < d <= 20 * max(s0, s1)):
+        return 0, None
+    n = 0
+    mu0_, mu1_, S0_, S1_ = mu[0], mu[1], S[0], S[1]            # numpy float64 scalars as returned by the library
+    dl, a, b = mu1_ - mu0_, S0_ ** 0.5, S1_ ** 0.5
+    kb = 'ook' if kind == 'ook' else 'ppm'
+    tm, gm, _ = band(kb, d, s0, s1, 2 if kind == 'ook' else M, 1000)
+    sc = 1.0 if kind == 'ook' else bit(M)
+    ah = 0.0 if kind == 'ook' else at_hard(M)
+    rnd = 8 * EPS * (abs(float(mu0_)) + abs(float(mu1_)))
+    slack = gm * sc * (RT_CURVE + 40 * rnd / min(s0, s1)) + ah
+    out = []
+    if kind == 'ook':
+        v = float(ook.theory_BER(dl, a, b)); n += 1
+        if not _in_band(v, tm, gm, RT_CURVE, 0.0):
+            V('chain:ook.theory_BER(average_voltages,noise_variances)', f'P_avg={P}: ook.theory_BER({dl!r}, {a!r}, {b!r}) = {v!r} outside [{tm!r}, {gm!r}]')
+        out.append(v)
+    else:
+        vh = float(ppm.theory_BER(dl, a, b, M, 'hard')); vs = float(ppm.theory_BER(dl, a, b, M, 'soft')); n += 2
+        if not _in_band(vh, tm * sc, gm * sc, RT_CURVE, ah):
+            V('chain:ppm.theory_BER(average_voltages,noise_variances)', f'P_avg={P}: ppm.theory_BER({dl!r}, {a!r}, {b!r}, {M}, hard) = {vh!r} outside [{tm*sc!r}, {gm*sc!r}]')
+        if M == 2 and not close(vs, float(Qf(d / math.hypot(s0, s1))), RT_CURVE, AT_SOFT):
+            V('chain:ppm.theory_BER(average_voltages,noise_variances)', f'P_avg={P}: soft M=2 {vs!r}, Q(d/sqrt(S0+S1)) = {float(Qf(d / math.hypot(s0, s1)))!r}')
+        if vs > vh * (1 + RT_CURVE) + AT_SOFT + ah:
+            V('chain:ppm.theory_BER(average_voltages,noise_variances)', f'P_avg={P}: soft {vs!r} > hard {vh!r}')
+        out += [vh, vs]
+    # estimators on an eye object with mu0 = mu_OFF != 0 and the (tiny) model sigmas
+    ey = _eye(mu0_, mu1_, a, b)
+    th = float(ook.THRESHOLD_EST(ey) if kind == 'ook' else ppm.THRESHOLD_EST(ey, M)); n += 1
+    fobj = (lambda x: float(ook_obj(x, d, s0, s1))) if kind == 'ook' else (lambda x: float(hard_obj(x, d, s0, s1, M)))
+    if not (float(mu0_) <= th <= float(mu1_)):
+        V(f'chain:{kb}.THRESHOLD_EST:outside-[mu0,mu1]', f'P_avg={P}: eye(mu0={mu0_!r}, mu1={mu1_!r}): threshold {th!r}')
+    elif fobj(min(max(th - float(mu0_), 0.0), d)) * sc > gm * sc + slack:
+        V(f'chain:{kb}.THRESHOLD_EST:not-a-grid-minimiser', f'P_avg={P}: eye(mu0={mu0_!r}, mu1={mu1_!r}, s0={a!r}, s1={b!r}): error integral at the returned threshold {th!r} exceeds the 1000-point grid minimum {gm!r}')
+    if kind == 'ook':
+        ve = float(ook.BER_analizer('estimator', eye_obj=ey)); n += 1
+    else:
+        ve = float(ppm.BER_analizer('estimator', eye_obj=ey, M=M, decision='hard')); n += 1
+    if not np.isfinite(ve) or ve < tm * sc * (1 - RT_CURVE) - slack or ve > gm * sc + slack:
+        V(f'chain:{kb}.BER_analizer:estimator:outside-grid-band', f'P_avg={P}: eye(mu0={mu0_!r}, mu1={mu1_!r}, s0={a!r}, s1={b!r}): {ve!r} not in [{tm*sc!r}, {gm*sc!r}]')
+    out += [th, ve]
+    # optimum_threshold on the model levels / variances
+    Mq = 2 if kind == 'ook' else M
+    roots = opt_thr_roots(float(dl), float(S0_), float(S1_), Mq)
+    try:
+        ot = float(U.optimum_threshold(mu0_, mu1_, S0_, S1_, kb, None if kind == 'ook' else M)); n += 1
+    except ArithmeticError:
+        ot = math.nan
+    out.append(ot if ot == ot else 'nan')
+    if roots:
+        if not np.isfinite(ot):
+            V('chain:optimum_threshold:not-finite', f'P_avg={P}: optimum_threshold({mu0_!r}, {mu1_!r}, {S0_!r}, {S1_!r}) = {ot!r} although real solutions exist')
+        else:
+            resid, scl = log_residual(ot - float(mu0_), float(dl), float(S0_), float(S1_), Mq)
+            tol = 1e-9 * scl * (1 + (abs(float(mu0_)) + abs(float(mu1_))) / float(dl))
+            if abs(resid) > tol:
+                V('chain:optimum_threshold:does-not-solve-(M-1)N0=N1', f'P_avg={P}: optimum_threshold({mu0_!r}, {mu1_!r}, {S0_!r}, {S1_!r}, {kb}, {M}) = {ot!r}: ln-residual {resid!r} (tol {tol!r})')
+    return n, tuple(out)
+
+
 def receiver_case(case):
     """case = tuple of the AXN coordinates.  Full P_avg ladder at this point."""
     p = dict(zip(AXN, case))
@@ -576,23 +777,33 @@ def receiver_case(case):
     kind, M, dec = MODS[p['mod']]
     Mm = 2 if kind == 'ook' else M
     amp, wl, r, R_L, T, NF_el, BW_el, ER = p['amplify'], p['wavelength'], p['r'], p['R_L'], p['T'], p['NF_el'], p['BW_el'], p['ER']
+    num, Mt = p.get('num', 'float'), p.get('Mt', 'int')
     if amp or p['form'] == 'explicit':
         G, NF, BW_opt = p['G'], p['NF'], p['BWx'] * BW_el
     else:
         G = NF = BW_opt = None
     f0 = C0 / wl
     viol, obs, nlib = [], [], 0
-    tag = f'{kind}{"" if kind == "ook" else f" M={M} {dec}"} ER={ER} amplify={amp} G={G} NF={NF} BW_opt={BW_opt} r={r} BW_el={BW_el} R_L={R_L} T={T} NF_el={NF_el} wavelength={wl}'
+    tag = (f'{kind}{"" if kind == "ook" else f" M={M} {dec}"} ER={ER} amplify={amp} G={G} NF={NF} BW_opt={BW_opt} r={r} BW_el={BW_el} R_L={R_L} T={T} NF_el={NF_el} wavelength={wl}'
+           + ('' if num == 'float' else f' [numbers passed as {num}]') + ('' if Mt == 'int' else f' [M passed as {Mt}]'))
 
     def V(key, msg):
         viol.append((key, f'{tag}: {msg}'))
 
+    # what the library is handed: the same values in the type form of this lattice point (the reference keeps the floats)
+    F = lambda v: as_form(v, num)
+    tER, twl, tG, tNF, tBo, tr, tBe, tRL, tT, tNe, tf0 = F(ER), F(wl), F(G), F(NF), F(BW_opt), F(r), F(BW_el), F(R_L), F(T), F(NF_el), F(f0)
+    tM = as_mform(M, Mt)
+    tamp = np.bool_(amp) if num.startswith('np.') else amp
+
     # ---- p_ase
     ref0 = rx_model(P_LADDER[0], Mm, ER, amp, wl, G, NF, BW_opt, r, BW_el, R_L, T, NF_el)
     try:
-        pa = U.p_ase(amp, wl, G, NF, BW_opt); nlib += 1
+        pa = U.p_ase(tamp, twl, tG, tNF, tBo); nlib += 1
         if not close(pa, ref0['pase'], RT_MODEL):
             V('p_ase:value', f'p_ase={pa!r}, reference NF*h*f0*(G-1)*BW_opt={ref0["pase"]!r}')
+        if (not amp or G == 0) and float(pa) != 0.0:
+            V('p_ase:value', f'p_ase={pa!r}: no amplifier / a gain of 0 dB adds no ASE (exactly 0 W expected)')
         obs.append(fl(pa))
     except TypeError as ex:
         V('unamplified-default-args:TypeError:p_ase', f'{ex}')
@@ -602,9 +813,12 @@ def receiver_case(case):
     for P in P_LADDER:
         ref = rx_model(P, Mm, ER, amp, wl, G, NF, BW_opt, r, BW_el, R_L, T, NF_el)
         refs.append(ref)
+        tP = F(P)
+        mu_l = S_l = None
         # ---- average_voltages
         try:
-            mu, mua = U.average_voltages(P, kind, M, ER, amp, wl, G, NF, BW_opt, r, R_L); nlib += 1
+            mu, mua = U.average_voltages(tP, kind, tM, tER, tamp, twl, tG, tNF, tBo, tr, tRL); nlib += 1
+            mu_l = mu
             mu = np.asarray(mu, dtype=float)
             if not (close(mu, ref['mu'], RT_MODEL) and close(mua, ref['mu_ase'], RT_MODEL)):
                 alt = rx_model(P, Mm, ER, amp, wl, G, NF, BW_opt, r, BW_el, R_L, T, NF_el, unamp_gain=True)
@@ -612,6 +826,7 @@ def receiver_case(case):
                     V('average_voltages:unamplified-applies-G', f'P_avg={P}: levels {mu!r} are those of a receiver WITH gain G={G} dB; unamplified reference {ref["mu"]!r}')
                 else:
                     V('average_voltages:value', f'P_avg={P}: (mu, mu_ASE)=({mu!r}, {mua!r}), reference ({ref["mu"]!r}, {ref["mu_ase"]!r})')
+                mu_l = None
             obs.append(fl(mu) + fl(mua))
         except TypeError as ex:
             if not amp and G is None:
@@ -620,8 +835,10 @@ def receiver_case(case):
                 raise
         # ---- noise_variances
         try:
-            S = np.asarray(U.noise_variances(P, kind, M, ER, amp, wl, G, NF, BW_opt, r, BW_el, R_L, T, NF_el), dtype=float); nlib += 1
+            S_l = U.noise_variances(tP, kind, tM, tER, tamp, twl, tG, tNF, tBo, tr, tBe, tRL, tT, tNe); nlib += 1
+            S = np.asarray(S_l, dtype=float)
             if not close(S, ref['S'], RT_MODEL):
+                S_l = None
                 alt1 = rx_model(P, Mm, ER, amp, wl, G, NF, BW_opt, r, BW_el, R_L, T, NF_el, nf_all=True)
                 alt2 = rx_model(P, Mm, ER, amp, wl, G, NF, BW_opt, r, BW_el, R_L, T, NF_el, unamp_gain=True)
                 alt3 = rx_model(P, Mm, ER, amp, wl, G, NF, BW_opt, r, BW_el, R_L, T, NF_el, nf_all=True, unamp_gain=True)
@@ -639,26 +856,49 @@ def receiver_case(case):
                 V('unamplified-default-args:TypeError:noise_variances', f'P_avg={P}: noise_variances(amplify=False) with the default G/NF/BW_opt raises TypeError: {ex}')
             else:
                 raise
+        # ---- the helpers' results fed on to the slot-level formulas
+        if mu_l is not None and S_l is not None:
+            k_, o_ = _chain(V, kind, M, dec, P, mu_l, S_l, ref); nlib += k_
+            if o_ is not None:
+                obs.append(o_)
 
-    # ---- utils.theory_BER: one vector call over the P ladder (+ one scalar call, + fixed mid threshold)
-    kw = dict(modulation=kind, M=M, decision=dec, ER=ER, amplify=amp, f0=f0, G=G, NF=NF, BW_opt=BW_opt, r=r, BW_el=BW_el, R_L=R_L, T=T, NF_el=NF_el)
-    vec = np.asarray(U.theory_BER(np.array(P_LADDER), **kw), dtype=float); nlib += 1
-    sc = float(U.theory_BER(P_LADDER[3], **kw)); nlib += 1
-    if vec.shape != (len(P_LADDER),) or not (close(vec[3], sc, 1e-12, 1e-300)):
+    # ---- utils.theory_BER: one vector call over the P ladder (+ one scalar call, + fixed thresholds)
+    kw = dict(modulation=kind, M=tM, decision=dec, ER=tER, amplify=tamp, f0=tf0, G=tG, NF=tNF, BW_opt=tBo, r=tr, BW_el=tBe, R_L=tRL, T=tT, NF_el=tNe)
+    nP = len(P_LADDER)
+    Pvec = as_vec(P_LADDER, num)
+    if isinstance(Pvec, np.ndarray):
+        Pvec.flags.writeable = False
+    vec = np.asarray(U.theory_BER(Pvec, **kw), dtype=float); nlib += 1
+    sc = float(U.theory_BER(F(P_LADDER[3]), **kw)); nlib += 1
+    if vec.shape != (nP,) or not (close(vec[3], sc, 1e-12, 1e-300)):
         V('utils.theory_BER:vectorisation', f'vector call {vec!r}, scalar call at P_avg={P_LADDER[3]}: {sc!r}')
-    if not (kind == 'ppm' and dec == 'soft'):
-        vmid = np.asarray(U.theory_BER(np.array(P_LADDER), threshold=0.5, **kw), dtype=float); nlib += 1
-    else:
-        vmid = None
-    obs.append(fl(vec))
+    one = np.asarray(U.theory_BER(as_vec(P_LADDER[3:4], num), **kw), dtype=float); nlib += 1
+    if one.shape != (1,) or not close(one, [sc], 1e-12, 1e-300):
+        V('utils.theory_BER:vectorisation', f'length-1 vector call at P_avg=[{P_LADDER[3]}] gives {one!r}, scalar call {sc!r}')
+    # every numeric argument as an array of the ladder's length (constant arrays): the same element-wise results
+    akw = {k_: (np.full(nP, v) if (v is not None and not isinstance(v, (str, bool, np.bool_))) else v) for k_, v in kw.items()}
+    allv = np.asarray(U.theory_BER(np.array(P_LADDER), **akw), dtype=float); nlib += 1
+    if allv.shape != vec.shape or not close(allv, vec, 1e-12, 1e-300):
+        V('utils.theory_BER:vectorisation', f'call with every numeric argument given as a length-{nP} array gives {allv!r}, with scalars {vec!r}')
     soft = (kind == 'ppm' and dec == 'soft')
+    vthr = {}
+    if not soft:
+        for t in THRESHOLDS:
+            vthr[t] = np.asarray(U.theory_BER(Pvec, threshold=F(t), **kw), dtype=float); nlib += 1
+        # a vector of thresholds goes element-wise with the vector of powers
+        tcyc = [THRESHOLDS[i % len(THRESHOLDS)] for i in range(nP)]
+        vt = np.asarray(U.theory_BER(Pvec, threshold=np.array(tcyc), **kw), dtype=float); nlib += 1
+        want = [float(vthr[t][i]) if vthr[t].shape == (nP,) else math.nan for i, t in enumerate(tcyc)]
+        if vt.shape != (nP,) or not close(vt, want, 1e-12, 1e-300):
+            V('utils.theory_BER:vectorisation', f'threshold={tcyc} with the P_avg vector gives {vt!r}, the calls with one threshold each {want!r}')
+    obs.append(fl(vec))
     at = AT_SOFT if soft else (at_hard(M) if kind == 'ppm' else 0.0)
     lo_hi = []
     for i, P in enumerate(P_LADDER):
         ref = refs[i]
         tm, gm, mid = _ber_refs(kind, M, dec, ref['mu'], ref['S'])
         lo_hi.append((tm, gm))
-        v = float(vec[i]) if vec.shape == (len(P_LADDER),) else math.nan
+        v = float(vec[i]) if vec.shape == (nP,) else math.nan
         if np.isnan(v) and ref['S'][0] == 0:
             V('utils.theory_BER:nan:zero-OFF-variance', f'P_avg={P}: theory_BER is nan; the OFF-slot variance is exactly 0 (levels {ref["mu"]!r}, variances {ref["S"]!r}), the error integral tends to {tm!r}')
             continue
@@ -673,22 +913,26 @@ def receiver_case(case):
                 V('utils.theory_BER:soft:integral' if soft else 'utils.theory_BER:outside-band', f'P_avg={P}: BER {v!r} outside [{tm!r}, {gm!r}] (levels {ref["mu"]!r}, variances {ref["S"]!r})')
         else:
             bers_ok.append(v)
-        if vmid is not None and vmid.shape == vec.shape:
-            vm = float(vmid[i])
+        for t, vv in vthr.items():
+            if vv.shape != vec.shape:
+                V('utils.theory_BER:fixed-threshold:value', f'threshold={t}: result of shape {vv.shape} for {nP} powers')
+                continue
+            vm = float(vv[i])
+            want = _ber_at(kind, M, dec, ref['mu'], ref['S'], t)
             if np.isnan(vm) and ref['S'][0] == 0:
                 pass            # same defect as above at the same point; reported once
-            elif not close(vm, mid, RT_RX, at):
+            elif not close(vm, want, RT_RX, at):
                 alt = rx_model(P, Mm, ER, amp, wl, G, NF, BW_opt, r, BW_el, R_L, T, NF_el, shot_RL=False)
-                _, _, mida = _ber_refs(kind, M, dec, alt['mu'], alt['S'])
-                if R_L != 1 and close(vm, mida, RT_RX, at):
-                    V('utils.theory_BER:shot-variance-lacks-R_L', f'P_avg={P} threshold=0.5: BER {vm!r}, model {mid!r}; equals the value {mida!r} obtained with shot = 2*e*mu*B (without R_L)')
+                wa = _ber_at(kind, M, dec, alt['mu'], alt['S'], t)
+                if R_L != 1 and close(vm, wa, RT_RX, at):
+                    V('utils.theory_BER:shot-variance-lacks-R_L', f'P_avg={P} threshold={t}: BER {vm!r}, model {want!r}; equals the value {wa!r} obtained with shot = 2*e*mu*B (without R_L)')
                 else:
-                    V('utils.theory_BER:fixed-threshold:value', f'P_avg={P} threshold=0.5: BER {vm!r}, error integral at the mid threshold {mid!r}')
-    if vmid is not None:
-        obs.append(fl(vmid))
+                    V('utils.theory_BER:fixed-threshold:value', f'P_avg={P} threshold={t}: BER {vm!r}, error integral at that threshold {want!r}')
+    for t, vv in vthr.items():
+        obs.append(fl(vv))
     # ---- decreases monotonically with received power (only where the reference itself does)
-    if vec.shape == (len(P_LADDER),):
-        for i in range(len(P_LADDER) - 1):
+    if vec.shape == (nP,):
+        for i in range(nP - 1):
             v0, v1 = float(vec[i]), float(vec[i + 1])
             if not (np.isfinite(v0) and np.isfinite(v1)):
                 continue
@@ -698,7 +942,7 @@ def receiver_case(case):
                 continue
             if v1 > v0 * (1 + RT_RX) + (gm1 - tm1) + (2 * at):
                 V('utils.theory_BER:not-monotone-in-P_avg', f'P_avg {P_LADDER[i]}->{P_LADDER[i+1]}: {v0!r} -> {v1!r}')
-    return res(viol=viol, obs=tuple(obs), nontrivial=informative(vec), stats={'receiver_points': len(P_LADDER), 'lib_calls': nlib})
+    return res(viol=viol, obs=tuple(obs), nontrivial=informative(vec), stats={'receiver_points': nP, 'lib_calls': nlib})
 
 
 # ---------------------------------------------------------------------------------------------------------
@@ -804,6 +1048,342 @@ def devices_cases(tier):
 
 
 # ---------------------------------------------------------------------------------------------------------
+# part 5: element-wise vectorisation of the receiver functions over every argument other than P_avg
+def _vec_values(p, pname):
+    BW_el = p['BW_el']
+    if pname == 'BW_opt':
+        return [x * BW_el for x in AXES['BWx']]
+    if pname == 'f0':
+        return [C0 / w for w in AXES['wavelength']]
+    return list(AXES[pname])
+
+
+VEC_PARAMS = ['ER', 'G', 'NF', 'BW_opt', 'r', 'BW_el', 'R_L', 'T', 'NF_el', 'f0', 'P_avg']
+HELPER_ARGS = {                      # positional order of the documented signatures
+    'p_ase': ['amplify', 'wavelength', 'G', 'NF', 'BW_opt'],
+    'average_voltages': ['P_avg', 'modulation', 'M', 'ER', 'amplify', 'wavelength', 'G', 'NF', 'BW_opt', 'r', 'R_L'],
+    'noise_variances': ['P_avg', 'modulation', 'M', 'ER', 'amplify', 'wavelength', 'G', 'NF', 'BW_opt', 'r', 'BW_el', 'R_L', 'T', 'NF_el'],
+}
+
+
+def rxvec_case(case):
+    """case = (lattice point, name of the argument that is given as a vector).  utils.theory_BER is documented with array
+    input (np.vectorize over every argument): a vector call must equal the scalar calls element by element - the vector
+    alone (all legal values of that axis, spread over orders of magnitude for R_L / r / ER), as a length-1 vector,
+    together with the P_avg vector (pair of vectors) and broadcast against it ((7,1) x (1,n)).  The model helpers are
+    documented for floats only: when they accept the vector their result must likewise be the scalar results side by side
+    (a rejection is recorded, not reported)."""
+    point, pname = case
+    p = dict(zip(AXN, point))
+    from opticomlib import utils as U
+    kind, M, dec = MODS[p['mod']]
+    amp, BW_el = p['amplify'], p['BW_el']
+    if amp or p['form'] == 'explicit':
+        G, NF, BW_opt = p['G'], p['NF'], p['BWx'] * BW_el
+    else:
+        G = NF = BW_opt = None
+    base = dict(ER=p['ER'], amplify=amp, f0=C0 / p['wavelength'], G=G, NF=NF, BW_opt=BW_opt, r=p['r'], BW_el=BW_el, R_L=p['R_L'], T=p['T'], NF_el=p['NF_el'])
+    viol, obs, nlib, nrej = [], [], 0, 0
+    tag = f'{kind} M={M} {dec} {base} vector argument {pname}'
+
+    def V(key, msg):
+        viol.append((key, f'{tag}: {msg}'))
+
+    if pname == 'P_avg':
+        # the model helpers are documented for a float P_avg; they happen to accept a vector of powers (levels / variances
+        # of shape (2, n)).  When they do, column i must be the scalar result for P_avg[i]; a rejection is recorded only.
+        hb = dict(modulation=kind, M=M, ER=base['ER'], amplify=amp, wavelength=p['wavelength'], G=G, NF=NF, BW_opt=BW_opt, r=base['r'], BW_el=BW_el, R_L=base['R_L'], T=base['T'], NF_el=base['NF_el'])
+        if not amp and G is None:
+            hb.update(G=0.0, NF=3.0, BW_opt=4 * BW_el)       # explicit form; the default form is exercised by the lattice
+        for Pv in (list(P_LADDER), P_LADDER[3:4]):
+            for fn in ('average_voltages', 'noise_variances'):
+                f, args = getattr(U, fn), HELPER_ARGS[fn]
+                sres = [f(*[dict(hb, P_avg=P)[a] for a in args]) for P in Pv]; nlib += len(Pv)
+                try:
+                    vres = f(*[dict(hb, P_avg=np.array(Pv))[a] for a in args]); nlib += 1
+                except Exception:
+                    nrej += 1
+                    continue
+                lv = np.asarray(vres[0] if fn == 'average_voltages' else vres, dtype=float)
+                ls = np.array([np.asarray(x[0] if fn == 'average_voltages' else x, dtype=float) for x in sres]).T
+                if lv.shape != ls.shape:
+                    nrej += 1
+                    continue
+                if not close(lv, ls, 1e-12, 0.0) or (fn == 'average_voltages' and not close(np.ravel(vres[1])[0], sres[0][1], 1e-12, 0.0)):
+                    V(f'{fn}:vector-argument-not-element-wise', f'P_avg={Pv} gives {vres!r}, scalar calls {sres!r}')
+                obs.append(fl(lv))
+        return res(viol=viol, obs=tuple(obs), nontrivial=(pname, point), stats={'lib_calls': nlib, 'helper_vector_calls_rejected': nrej})
+    vals = _vec_values(p, pname)
+    if pname == 'BW_opt' and amp:
+        vals = [v for v in vals if v > BW_el]
+    if pname == 'BW_el' and BW_opt is not None:
+        vals = [v for v in vals if v < BW_opt]
+    n = len(vals)
+    P0 = P_LADDER[3]
+
+    def tb(P, **over):
+        kw = dict(base); kw.update(over)
+        return U.theory_BER(P, kind, M, dec, **kw)
+
+    scal = [float(tb(P0, **{pname: v})) for v in vals]; nlib += n
+    vec = np.asarray(tb(P0, **{pname: np.array(vals)}), dtype=float); nlib += 1
+    if vec.shape != (n,) or not close(vec, scal, 1e-12, 1e-300):
+        V('utils.theory_BER:vectorisation', f'{pname}={vals} gives {vec!r}, scalar calls {scal!r}')
+    one = np.asarray(tb(P0, **{pname: np.array(vals[-1:])}), dtype=float); nlib += 1
+    if one.shape != (1,) or not close(one, scal[-1:], 1e-12, 1e-300):
+        V('utils.theory_BER:vectorisation', f'length-1 vector {pname}={vals[-1:]} gives {one!r}, scalar call {scal[-1]!r}')
+    nP = len(P_LADDER)
+    cyc = [vals[i % n] for i in range(nP)]
+    pair = np.asarray(tb(np.array(P_LADDER), **{pname: np.array(cyc)}), dtype=float); nlib += 1
+    spair = [float(tb(P_LADDER[i], **{pname: cyc[i]})) for i in range(nP)]; nlib += nP
+    if pair.shape != (nP,) or not close(pair, spair, 1e-12, 1e-300):
+        V('utils.theory_BER:vectorisation', f'P_avg={P_LADDER} together with {pname}={cyc} gives {pair!r}, scalar calls {spair!r}')
+    grid = np.asarray(tb(np.array(P_LADDER).reshape(nP, 1), **{pname: np.array(vals).reshape(1, n)}), dtype=float); nlib += 1
+    cols = [np.asarray(tb(np.array(P_LADDER), **{pname: v}), dtype=float) for v in vals]; nlib += n
+    if grid.shape != (nP, n) or not all(close(grid[:, j], cols[j], 1e-12, 1e-300) for j in range(n)):
+        V('utils.theory_BER:vectorisation', f'P_avg (7,1) broadcast against {pname} (1,{n}) gives {grid!r}, column-wise calls {cols!r}')
+    obs += [fl(vec), fl(pair), fl(grid)]
+
+    return res(viol=viol, obs=tuple(obs), nontrivial=informative(list(vec) + list(pair)) and (pname, point),
+               stats={'lib_calls': nlib, 'helper_vector_calls_rejected': nrej})
+
+
+def rxvec_cases(tier):
+    pts = rx_points(1 if tier == 'quick' else 2)
+    i_num, i_mt = AXN.index('num'), AXN.index('Mt')
+    out = []
+    for pt in pts:
+        if pt[i_num] != 'float' or pt[i_mt] != 'int':
+            continue                          # type forms are the business of the receiver lattice
+        for name in VEC_PARAMS:
+            out.append((pt, name))
+    return out
+
+
+# ---------------------------------------------------------------------------------------------------------
+# part 6: type forms, documented defaults, keyword / positional forms, spellings
+FORM_TUPLES = [(0, 8, 1, 1), (0, 8, 1, 2), (0, 8, 2, 1), (-3, 8, 1, 2), (1000, 12, 3, 1), (0, 20, 1, 1), (2, 40, 2, 1)]   # (mu0, mu1-mu0, s0, s1), integer valued
+FORM_MS = [2, 4, 256]
+SCALAR_FORMS = ['int', 'np.float64', 'np.int64', 'np.int32', '0-d', '0-d int', 'np.float32']
+RT_F32, AT_F32 = 1e-4, 1e-7      # float32 operands: 8 eps32 = 1e-6 on every level / sigma, amplified by z|dlnQ/dz| <= 100 for z <= 10 (the tuples have mu/s <= 20 only where BER < 1e-20: covered by AT)
+
+
+def _cmp_forms(V, name, what, got, want, f32=False, soft=False):
+    rt, at = (RT_F32, AT_F32) if f32 else (1e-12, 1e-300)
+    if soft:
+        at = max(at, 1e-12)
+    if not close(np.asarray(got, dtype=float), np.asarray(want, dtype=float), rt, at):
+        V(f'{name}:argument-form', f'{what}: {got!r}; with Python floats: {want!r}')
+
+
+def _either(f, want, rt=1e-12, at=1e-300):
+    """statement silent on this spelling: an exception is accepted, a returned value must be the right one.
+    Returns None (fine), or the wrong value."""
+    try:
+        got = f()
+    except Exception:
+        return None, 1
+    if isinstance(got, tuple) != isinstance(want, tuple):
+        return got, 0
+    gs, ws = (got, want) if isinstance(got, tuple) else ((got,), (want,))
+    for g, w in zip(gs, ws):
+        if not close(np.asarray(g, dtype=float), np.asarray(w, dtype=float), rt, at):
+            return got, 0
+    return None, 0
+
+
+def forms_case(case):
+    viol, obs, nlib, nrej = [], [], 0, 0
+    from opticomlib import ook, ppm, utils as U
+
+    def V(key, msg):
+        viol.append((key, f'{case!r}: {msg}'))
+
+    if case[0] == 'slot':
+        _, mu0, d, s0, s1, M = case
+
+        def calls(F, Mx):
+            m0, m1, dd, a, b, A, B = F(mu0), F(mu0 + d), F(d), F(s0), F(s1), F(s0 * s0), F(s1 * s1)
+            ey = _eye(m0, m1, a, b)
+            return {
+                'ook.theory_BER': lambda: ook.theory_BER(dd, a, b),
+                'ppm.theory_BER:hard': lambda: ppm.theory_BER(dd, a, b, Mx, 'hard'),
+                'ppm.theory_BER:soft': lambda: ppm.theory_BER(dd, a, b, Mx, 'soft'),
+                'optimum_threshold:ook': lambda: U.optimum_threshold(m0, m1, A, B, 'ook'),
+                'optimum_threshold:ppm': lambda: U.optimum_threshold(m0, m1, A, B, 'ppm', Mx),
+                'ook.THRESHOLD_EST': lambda: ook.THRESHOLD_EST(ey),
+                'ppm.THRESHOLD_EST': lambda: ppm.THRESHOLD_EST(ey, Mx),
+                'ook.BER_analizer:estimator': lambda: ook.BER_analizer('estimator', eye_obj=ey),
+                'ppm.BER_analizer:estimator:hard': lambda: ppm.BER_analizer('estimator', eye_obj=ey, M=Mx, decision='hard'),
+                'ppm.BER_analizer:estimator:soft': lambda: ppm.BER_analizer('estimator', eye_obj=ey, M=Mx, decision='soft'),
+            }
+
+        def run(F, Mx):
+            out = {}
+            with np.errstate(all='ignore'):
+                for k_, f in calls(F, Mx).items():
+                    out[k_] = float(f())
+            return out
+        base = run(float, M); nlib += len(base)
+        obs.append(tuple(v if v == v else 'nan' for v in base.values()))
+        for form in SCALAR_FORMS:
+            got = run(lambda v: as_form(v, form), M); nlib += len(got)
+            for k_ in base:
+                _cmp_forms(V, k_, f'arguments passed as {form}', got[k_], base[k_], f32=(form == 'np.float32'), soft='soft' in k_)
+        for mt in ('np.int64', 'np.int32', 'np.int16', 'np.uint8' if M < 256 else 'np.uint16'):
+            got = run(float, as_mform(M, mt)); nlib += len(got)
+            for k_ in base:
+                _cmp_forms(V, k_, f'M passed as {mt}({M})', got[k_], base[k_], soft='soft' in k_)
+        # ---- vectors in every container / dtype
+        mus = [1, 2, d // 2, d]
+        fns = {'ook.theory_BER': lambda m_, a_, b_: ook.theory_BER(m_, a_, b_),
+               'ppm.theory_BER:hard': lambda m_, a_, b_: ppm.theory_BER(m_, a_, b_, M, 'hard'),
+               'ppm.theory_BER:soft': lambda m_, a_, b_: ppm.theory_BER(m_, a_, b_, M, 'soft')}
+        conts = {'list of int': lambda: list(mus), 'tuple of int': lambda: tuple(mus), 'list of float': lambda: [float(m) for m in mus],
+                 'int64 ndarray': lambda: np.array(mus, dtype=np.int64), 'int32 ndarray': lambda: np.array(mus, dtype=np.int32),
+                 'uint8 ndarray': lambda: np.array(mus, dtype=np.uint8), 'float32 ndarray': lambda: np.array(mus, dtype=np.float32),
+                 '(2,2) int64 ndarray': lambda: np.array(mus, dtype=np.int64).reshape(2, 2),
+                 'read-only float ndarray': lambda: freeze_arr(np.array(mus, dtype=float))}
+        for k_, f in fns.items():
+            sc = [float(f(float(m), float(s0), float(s1))) for m in mus]; nlib += len(mus)
+            for cn, mk in conts.items():
+                for sform in ('int', 'float'):
+                    x = mk()
+                    r = np.asarray(f(x, as_form(s0, sform), as_form(s1, sform)), dtype=float); nlib += 1
+                    if r.shape != np.shape(x) or not close(r.ravel(), sc, 1e-12, 1e-12 if 'soft' in k_ else 1e-300):
+                        V(f'{k_}:argument-form', f'mu as {cn} {x!r}, sigmas as {sform}: {r!r}; scalar float calls {sc!r}')
+            # sigma arrays of integer dtype alongside
+            r = np.asarray(f(np.array(mus), np.full(4, s0, dtype=np.int64), np.full(4, s1, dtype=np.int32)), dtype=float); nlib += 1
+            if r.shape != (4,) or not close(r, sc, 1e-12, 1e-12 if 'soft' in k_ else 1e-300):
+                V(f'{k_}:argument-form', f'mu float array, s0 int64 array, s1 int32 array: {r!r}; scalar float calls {sc!r}')
+        # ---- documented defaults and keyword forms
+        fd, fa, fb = float(d), float(s0), float(s1)
+        ey = _eye(float(mu0), float(mu0 + d), fa, fb)
+        chk = [('ppm.theory_BER:soft', 'decision omitted (documented default soft)', lambda: ppm.theory_BER(fd, fa, fb, M)),
+               ('ppm.theory_BER:soft', 'all arguments by keyword', lambda: ppm.theory_BER(decision='soft', M=M, s1=fb, s0=fa, mu1=fd)),
+               ('ppm.theory_BER:hard', 'all arguments by keyword', lambda: ppm.theory_BER(decision='hard', M=M, s1=fb, s0=fa, mu1=fd)),
+               ('ook.theory_BER', 'all arguments by keyword', lambda: ook.theory_BER(s1=fb, s0=fa, mu1=fd)),
+               ('ppm.BER_analizer:estimator:soft', 'decision omitted (documented default soft)', lambda: ppm.BER_analizer('estimator', eye_obj=ey, M=M)),
+               ('ppm.THRESHOLD_EST', 'arguments by keyword', lambda: ppm.THRESHOLD_EST(M=M, eye_obj=ey)),
+               ('ook.THRESHOLD_EST', 'argument by keyword', lambda: ook.THRESHOLD_EST(eye_obj=ey)),
+               ('optimum_threshold:ppm', 'arguments by keyword', lambda: U.optimum_threshold(M=M, modulation='ppm', S1=fb * fb, S0=fa * fa, mu1=float(mu0 + d), mu0=float(mu0))),
+               ('optimum_threshold:ook', 'M omitted / None for ook', lambda: U.optimum_threshold(float(mu0), float(mu0 + d), fa * fa, fb * fb, 'ook', None))]
+        with np.errstate(all='ignore'):
+            for k_, what, f in chk:
+                _cmp_forms(V, k_, what, float(f()), base[k_], soft='soft' in k_); nlib += 1
+            # ---- other spellings (not documented: either rejected or the same value)
+            sp = [('ppm.theory_BER:hard', "decision='HARD'", lambda: ppm.theory_BER(fd, fa, fb, M, 'HARD')),
+                  ('ppm.theory_BER:soft', "decision='Soft'", lambda: ppm.theory_BER(fd, fa, fb, M, 'Soft')),
+                  ('ppm.BER_analizer:estimator:hard', "decision='HARD'", lambda: ppm.BER_analizer('estimator', eye_obj=ey, M=M, decision='HARD')),
+                  ('ppm.BER_analizer:estimator:soft', "decision='Soft'", lambda: ppm.BER_analizer('estimator', eye_obj=ey, M=M, decision='Soft')),
+                  ('ppm.BER_analizer:estimator:hard', "mode='ESTIMATOR'", lambda: ppm.BER_analizer('ESTIMATOR', eye_obj=ey, M=M, decision='hard')),
+                  ('ook.BER_analizer:estimator', "mode='ESTIMATOR'", lambda: ook.BER_analizer('ESTIMATOR', eye_obj=ey)),
+                  ('optimum_threshold:ook', "modulation='OOK'", lambda: U.optimum_threshold(float(mu0), float(mu0 + d), fa * fa, fb * fb, 'OOK')),
+                  ('optimum_threshold:ppm', "modulation='PPM'", lambda: U.optimum_threshold(float(mu0), float(mu0 + d), fa * fa, fb * fb, 'PPM', M))]
+            for k_, what, f in sp:
+                bad, rej = _either(f, base[k_], 1e-12, 1e-12 if 'soft' in k_ else 1e-300); nlib += 1; nrej += rej
+                if bad is not None:
+                    V(f'{k_}:spelling', f'{what} is accepted but gives {bad!r}; {base[k_]!r} with the documented spelling')
+        return res(viol=viol, obs=tuple(obs), nontrivial=informative([base['ook.theory_BER'], base['ppm.theory_BER:hard']]) and case,
+                   stats={'lib_calls': nlib, 'undocumented_spellings_rejected': nrej})
+
+    # ---- receiver functions: case = ('rx', amplified?, index into MODS)
+    _, amp, mi = case
+    kind, M, dec = MODS[mi]
+    Mm = 2 if kind == 'ook' else M
+    val = dict(P_avg=-25.0, ER=10.0, wavelength=1550e-9, G=20.0 if amp else None, NF=5.0 if amp else None, BW_opt=20e9 if amp else None,
+               r=0.5, BW_el=5e9, R_L=50.0, T=300.0, NF_el=3.0)
+    f0 = C0 / val['wavelength']
+
+    def helper(fn, F=float, **over):
+        v = {k_: (F(x) if (k_ != 'wavelength' and x is not None) else x) for k_, x in val.items()}
+        v.update(modulation=kind, M=M, amplify=amp); v.update(over)
+        return getattr(U, fn)(*[v[a] for a in HELPER_ARGS[fn]])
+
+    def tber(F=float, **over):
+        v = {k_: (F(x) if x is not None else x) for k_, x in val.items() if k_ not in ('wavelength', 'P_avg')}
+        v.update(amplify=amp, f0=f0); v.update(over)
+        return U.theory_BER(F(val['P_avg']), kind, M, dec, **v)
+
+    def flat(x):
+        return np.concatenate([np.ravel(np.asarray(y, dtype=float)) for y in (x if isinstance(x, tuple) else (x,))])
+    ref = rx_model(val['P_avg'], Mm, val['ER'], amp, val['wavelength'], val['G'], val['NF'], val['BW_opt'], val['r'], val['BW_el'], val['R_L'], val['T'], val['NF_el'])
+    base = {fn: flat(helper(fn)) for fn in HELPER_ARGS}; nlib += 3
+    base['theory_BER'] = flat(tber()); nlib += 1
+    soft = (kind == 'ppm' and dec == 'soft')
+    if not soft:
+        base['theory_BER:threshold'] = flat(tber(threshold=0.25)); nlib += 1
+    obs.append(tuple(fl(v) for v in base.values()))
+    if not (close(base['p_ase'], [ref['pase']], RT_MODEL) and close(base['average_voltages'], list(ref['mu']) + [ref['mu_ase']], RT_MODEL) and close(base['noise_variances'], ref['S'], RT_MODEL)):
+        V('forms:baseline-model-value', f'helpers give {base!r}, model {ref!r}')
+    # float32 operands (every value of this point is exactly representable): the result of a float32-accurate evaluation
+    F32 = lambda v: as_form(v, 'np.float32')
+    for fn in HELPER_ARGS:
+        g = flat(helper(fn, F32)); nlib += 1
+        if not close(g, base[fn], RT_F32, 0.0):
+            V(f'{fn}:argument-form', f'arguments passed as np.float32: {g!r}; with Python floats: {base[fn]!r}')
+    g = flat(tber(F32)); nlib += 1
+    # BER: relative error of the variances/levels (<= 1e-6) amplified by z^2 (z = d/2s <= 8 at this point: BER >= 1e-15 for OOK / hard)
+    if not close(g, base['theory_BER'], 1e-3, AT_SOFT if soft else 1e-18):
+        V('utils.theory_BER:argument-form', f'arguments passed as np.float32: {g!r}; with Python floats: {base["theory_BER"]!r}')
+    # ---- keyword form of the helpers / positional form of theory_BER
+    kwv = dict(modulation=kind, M=M, amplify=amp, **val)
+    for fn, args in HELPER_ARGS.items():
+        g = flat(getattr(U, fn)(**{a: kwv[a] for a in reversed(args)})); nlib += 1
+        if not close(g, base[fn], 1e-15, 0.0):
+            V(f'{fn}:argument-form', f'arguments by keyword: {g!r}; by position: {base[fn]!r}')
+    g = flat(U.theory_BER(val['P_avg'], kind, M, dec, None, val['ER'], amp, f0, val['G'], val['NF'], val['BW_opt'], val['r'], val['BW_el'], val['R_L'], val['T'], val['NF_el'])); nlib += 1
+    if not close(g, base['theory_BER'], 1e-15, 0.0):
+        V('utils.theory_BER:argument-form', f'all arguments by position (documented order): {g!r}; by keyword: {base["theory_BER"]!r}')
+    if not soft:
+        g = flat(U.theory_BER(val['P_avg'], kind, M, dec, 0.25, val['ER'], amp, f0, val['G'], val['NF'], val['BW_opt'], val['r'], val['BW_el'], val['R_L'], val['T'], val['NF_el'])); nlib += 1
+        if not close(g, base['theory_BER:threshold'], 1e-15, 0.0):
+            V('utils.theory_BER:argument-form', f'all arguments by position, threshold=0.25: {g!r}; by keyword: {base["theory_BER:threshold"]!r}')
+    # ---- documented defaults: leaving an argument out == passing the documented default value
+    edfa = dict(G=val['G'], NF=val['NF'], BW_opt=val['BW_opt'])
+    P = val['P_avg']
+    dflt = [('p_ase', 'amplify, wavelength omitted' if amp else 'wavelength, G, NF, BW_opt omitted',
+             (lambda: U.p_ase(**edfa)) if amp else (lambda: U.p_ase(False)),
+             (lambda: U.p_ase(True, 1550e-9, **edfa)) if amp else (lambda: U.p_ase(False, 1550e-9, None, None, None))),
+            ('average_voltages', 'M (ook), ER, wavelength, r, R_L omitted' + (', amplify omitted' if amp else ''),
+             (lambda: U.average_voltages(P, kind, **edfa)) if (amp and kind == 'ook') else (lambda: U.average_voltages(P, kind, M, amplify=amp, **edfa)),
+             lambda: U.average_voltages(P, kind, M, np.inf, amp, 1550e-9, val['G'], val['NF'], val['BW_opt'], 1.0, 50)),
+            ('noise_variances', 'ER, wavelength, r, BW_el, R_L, T, NF_el omitted',
+             lambda: U.noise_variances(P, kind, M, amplify=amp, **edfa),
+             lambda: U.noise_variances(P, kind, M, np.inf, amp, 1550e-9, val['G'], val['NF'], val['BW_opt'], 1.0, 5e9, 50, 300, 0)),
+            ('utils.theory_BER', 'threshold, ER, f0, r, BW_el, R_L, T, NF_el omitted' + ('' if amp else ', amplify, G, NF, BW_opt omitted'),
+             (lambda: U.theory_BER(P, kind, M, dec, amplify=True, **edfa)) if amp else (lambda: U.theory_BER(P, kind, M, dec)),
+             lambda: U.theory_BER(P, kind, M, dec, None, np.inf, amp, 193.4145e12, val['G'], val['NF'], val['BW_opt'], 1.0, 5e9, 50, 300, 0))]
+    for fn, what, f_short, f_full in dflt:
+        a, b = flat(f_short()), flat(f_full()); nlib += 2
+        if not close(a, b, 1e-15, 0.0):
+            V(f'{fn}:documented-default', f'{what}: {a!r}; documented defaults passed explicitly: {b!r}')
+        obs.append(fl(a))
+    # ---- spellings (letter case is not documented: either rejected or the same value)
+    for what, f, want in [("modulation upper case", lambda: helper('average_voltages', modulation=kind.upper()), tuple(helper('average_voltages'))),
+                          ("modulation upper case", lambda: helper('noise_variances', modulation=kind.upper()), helper('noise_variances')),
+                          ("modulation upper case", lambda: U.theory_BER(P, kind.upper(), M, dec, amplify=amp, f0=f0, **edfa), U.theory_BER(P, kind, M, dec, amplify=amp, f0=f0, **edfa)),
+                          ("modulation capitalised", lambda: U.theory_BER(P, kind.capitalize(), M, dec, amplify=amp, f0=f0, **edfa), U.theory_BER(P, kind, M, dec, amplify=amp, f0=f0, **edfa)),
+                          ("decision upper case", lambda: U.theory_BER(P, kind, M, dec.upper() if dec else dec, amplify=amp, f0=f0, **edfa), U.theory_BER(P, kind, M, dec, amplify=amp, f0=f0, **edfa))]:
+        bad, rej = _either(f, want, 1e-12, 1e-12 if soft else 1e-300); nlib += 2; nrej += rej
+        if bad is not None:
+            V('receiver:spelling', f'{what} is accepted but gives {bad!r}; {want!r} with the documented spelling')
+    return res(viol=viol, obs=tuple(obs), nontrivial=informative(base['theory_BER']) and case,
+               stats={'lib_calls': nlib, 'undocumented_spellings_rejected': nrej})
+
+
+def freeze_arr(a):
+    a.flags.writeable = False
+    return a
+
+
+def forms_cases():
+    out = [('slot', mu0, d, s0, s1, M) for M in FORM_MS for (mu0, d, s0, s1) in FORM_TUPLES]
+    out += [('rx', amp, mi) for amp in (False, True) for mi in range(len(MODS))]
+    return out
+
+
+# ---------------------------------------------------------------------------------------------------------
 # part 0: minimal inputs of the defects known from DESIGN section 8 (#8-#12), replayed first
 def regress_case(case):
     name = case[0]
@@ -871,7 +1451,8 @@ REGRESS = [('avgV-unamplified-defaults',), ('nv-unamplified-BW_opt-default',), (
 
 # ---------------------------------------------------------------------------------------------------------
 # ------------------------------------------------------------------ ambient-grid independence (added by the coordinator)
-AMBIENT = [dict(), dict(sps=16, R=10e9, wavelength=1310e-9), dict(sps=8, R=2.5e9, wavelength=850e-9), dict(sps=4, R=40e9)]
+AMBIENT = [dict(), dict(sps=16, R=10e9, wavelength=1310e-9), dict(sps=8, R=2.5e9, wavelength=850e-9), dict(sps=4, R=40e9),
+           dict(sps=8, fs=33.3e9, wavelength=1310e-9), dict(R=1.25e9, fs=20e9), dict(fs=37e9), dict(sps=16, R=10e9, N=1024, wavelength=1600e-9)]
 
 
 def ambient_case(case):
@@ -891,6 +1472,10 @@ def ambient_case(case):
         'ook.theory_BER': lambda: OOK.theory_BER(np.array([1.0, 2.0]), 0.1, 0.2),
         'ppm.theory_BER': lambda: PPM.theory_BER(np.array([1.0, 2.0]), 0.2, 0.3, M or 4, dec or 'hard'),
         'optimum_threshold': lambda: U.optimum_threshold(0.1, 1.1, 0.01, 0.04, kind, M),
+        'ook.THRESHOLD_EST': lambda: OOK.THRESHOLD_EST(_eye(0.1, 1.1, 0.1, 0.2)),
+        'ppm.THRESHOLD_EST': lambda: PPM.THRESHOLD_EST(_eye(0.1, 1.1, 0.1, 0.2), M or 4),
+        'ook.BER_analizer': lambda: OOK.BER_analizer('estimator', eye_obj=_eye(0.1, 1.1, 0.1, 0.2)),
+        'ppm.BER_analizer': lambda: PPM.BER_analizer('estimator', eye_obj=_eye(0.1, 1.1, 0.1, 0.2), M=M or 4, decision=dec or 'hard'),
     }
     f = calls[name]
     viol, outs = [], []
@@ -913,8 +1498,9 @@ def ambient_cases():
             for P in (-40.0, -25.0):
                 for name in ('p_ase', 'average_voltages', 'noise_variances', 'theory_BER'):
                     out.append((name, P, kind, M, dec, amp))
-    for name in ('ook.theory_BER', 'ppm.theory_BER', 'optimum_threshold'):
+    for name in ('ook.theory_BER', 'ppm.theory_BER', 'optimum_threshold', 'ook.THRESHOLD_EST', 'ppm.THRESHOLD_EST', 'ook.BER_analizer', 'ppm.BER_analizer'):
         out.append((name, -25.0, 'ppm', 4, 'hard', False))
+        out.append((name, -25.0, 'ppm', 16, 'soft', False))
         out.append((name, -25.0, 'ook', None, None, False))
     return out
 
@@ -934,9 +1520,7 @@ def run(ctx):
         ctx.run_case('regress', regress_case, c)
     ctx.space('regress', len(REGRESS))
 
-    pairs = list(itertools.product(sg_, sg_))
-    pairs.sort(key=lambda p: (p[0] != p[1], sg_.index(p[0]) + sg_.index(p[1])))
-    fcases = [(tier, 'ook', a, b, 2) for a, b in pairs] + [(tier, 'ppm', a, b, M) for M in MS for a, b in pairs]
+    fcases = formula_cases(tier)
     import time
     t0 = time.time()
     ctx.pmap('formulas', formulas_case, fcases, horizon=120)
@@ -949,5 +1533,7 @@ def run(ctx):
     t3 = time.time()
     ctx.pmap('devices', devices_case, devices_cases(tier), horizon=60)
     t4 = time.time()
+    ctx.pmap('receiver-vectors', rxvec_case, rxvec_cases(tier), horizon=120)
+    ctx.pmap('forms', forms_case, forms_cases(), horizon=120)
     ctx.pmap('ambient-gv', ambient_case, ambient_cases(), horizon=120)
     print(f'[C13] wall per part: formulas {t1-t0:.1f}s estimators {t2-t1:.1f}s receiver {t3-t2:.1f}s devices {t4-t3:.1f}s', flush=True)
